@@ -13,7 +13,6 @@ import (
 	"fmt"
 	"hash/fnv"
 	"os"
-	"runtime/debug"
 	"runtime/pprof"
 	"sort"
 	"strconv"
@@ -206,9 +205,9 @@ func judge(w *polworld.World, c tcase) (o outcome) {
 	cause := func(deficit, nMaint int, list []int) string {
 		s := "no-maintenance-node-involved"
 		if nMaint >= deficit {
-			s = "maintenance-nodes-counted-as-holders"
+			s = "assumed-copies-on-maintenance-nodes-counted"
 		} else if nMaint > 0 {
-			s = "maintenance-nodes-counted-as-holders+more"
+			s = "assumed-copies-on-maintenance-nodes-counted+other-unconfirmed-nodes"
 		}
 		cand := false
 		for _, n := range list {
@@ -217,7 +216,7 @@ func judge(w *polworld.World, c tcase) (o outcome) {
 			}
 		}
 		if cand {
-			s += ";a-checked-node-of-the-list-answered-404"
+			s += ";a-checked-node-answered-404"
 		} else {
 			s += ";no-404-answer"
 		}
@@ -232,7 +231,7 @@ func judge(w *polworld.World, c tcase) (o outcome) {
 	switch c.Kind {
 	case "rep", "ec-plain":
 		if localListed && (types[c.Type] == object.TypeLock || types[c.Type] == object.TypeLink) {
-			return fail(c.Kind+":lock-or-link-dropped-on-container-node", "%v removed from a container node", types[c.Type])
+			return fail("lock-or-link-dropped-on-container-node", "%v removed from a container node", types[c.Type])
 		}
 		for i, l := range c.Lists {
 			if !has(l, 0) {
@@ -252,7 +251,7 @@ func judge(w *polworld.World, c tcase) (o outcome) {
 				}
 			}
 			if cnt < req {
-				return fail(c.Kind+":in-container:needed-copy-dropped:"+cause(req-cnt, nm, l),
+				return fail("in-container:local-copy-dropped-with-confirmed<required:"+cause(req-cnt, nm, l),
 					"local copy removed although rule #%d (REP %d over %v) has only %d confirmed other holder(s)", i, req, l, cnt)
 			}
 		}
@@ -278,7 +277,7 @@ func judge(w *polworld.World, c tcase) (o outcome) {
 				}
 			}
 			if cnt == 0 {
-				return fail(c.Kind+":outside-container:dropped-without-any-confirmed-holder:"+cause(1, nm, all),
+				return fail("outside-container:local-copy-dropped-with-no-confirmed-holder:"+cause(1, nm, all),
 					"node outside the container removed its copy with no confirmed holder at all")
 			}
 		}
@@ -351,9 +350,6 @@ var stopProf = func() {}
 
 func main() {
 	r := ev.Start("C26", ev.Exploration)
-	if os.Getenv("GOGC") == "" {
-		debug.SetGCPercent(400)
-	}
 	if pf := os.Getenv("VERIF_PROF"); pf != "" { // developer aid only
 		f, _ := os.Create(pf)
 		pprof.StartCPUProfile(f)
@@ -427,6 +423,8 @@ func main() {
 	var mu sync.Mutex
 	traces := map[uint64]struct{}{}
 	classes := map[string]int64{}
+	violClasses := map[string]int64{}
+	violFirst := map[string]string{}
 	var deletes, contacted atomic.Int64
 	expired := atomic.Bool{}
 	enumx.Parallel(len(jobs), func(ji int) {
@@ -467,6 +465,12 @@ func main() {
 			}
 			if o.fp != "" {
 				r.Violation(o.fp, o.what, c)
+				mu.Lock()
+				if violClasses[o.fp] == 0 {
+					violFirst[o.fp] = o.what
+				}
+				violClasses[o.fp]++
+				mu.Unlock()
 			} else if o.deleted && c.Kind == "rep" && len(c.Lists) == 2 && j.k >= 3 && r.WantSample() {
 				r.Sample(map[string]any{"case": c.String(), "outcome": o.class})
 			}
@@ -525,6 +529,15 @@ func main() {
 		cl = append(cl, fmt.Sprintf("%s=%d", k, v))
 	}
 	sort.Strings(cl)
+	var vc []string
+	for k, v := range violClasses {
+		vc = append(vc, fmt.Sprintf("%s  x%d  first: %s", k, v, violFirst[k]))
+	}
+	sort.Strings(vc)
+	for _, l := range vc {
+		fmt.Println("violation-class:", l)
+	}
+	r.Set("violation_classes", vc)
 	r.Set("outcome_classes", len(classes))
 	r.Set("outcome_class_counts", cl)
 	r.Set("cases_with_local_copy_dropped", deletes.Load())
